@@ -250,8 +250,10 @@ def theorem_names(vfile: Path) -> list[str]:
 # coq literal printers / parsers
 
 def coq_string(s: str) -> str:
-    """Coq string literal for a str whose characters are all < 256 (bytes)."""
-    return '"' + s.replace('"', '""') + '"'
+    """Coq term of type string for a str whose characters are all < 256 (one byte each)."""
+    if all(32 <= ord(c) < 127 for c in s):
+        return '"' + s.replace('"', '""') + '"'
+    return ("(string_of_list_ascii (List.map Ascii.ascii_of_N [" + "; ".join(str(ord(c)) for c in s) + "]%N))")
 
 
 def coq_N_list(xs) -> str:
